@@ -99,22 +99,23 @@ Theorem leaf_is_kernel : forall f s k,
   src_wf s = true -> conv false false (S f) (JNum s) (TNum k) = gv_of_outcome (convertNumeric s k).
 Proof. intros f s k H. cbn [conv]. now rewrite H. Qed.
 
-(* whatever runs while its arguments are converted, a call reaches Go last in
-   its own log segment and with exactly its own argument values *)
-Theorem reentrant_args_intact : forall f fn args,
-  exists before, ev_call (S f) (RCall fn args) = before ++ [(fn, map rarg_val args)].
-Proof. intros. cbn [ev_call]. eexists. reflexivity. Qed.
-
-(* calls made from inside the conversion of an argument are logged, completely, before the outer one *)
-Theorem reentrant_inner_first : forall f fn pre inner v post,
-  exists a b, ev_call (S f) (RCall fn (pre ++ RRe inner v :: post)) =
-              a ++ flat_map (ev_call f) inner ++ b ++ [(fn, map rarg_val (pre ++ RRe inner v :: post))].
+(* whatever runs while its arguments are converted, a call that completes reaches
+   Go last in its own log segment and with exactly its own argument values *)
+Theorem reentrant_args_intact : forall f fn args l,
+  ev_call (S f) (RCall fn args) = (l, true) ->
+  exists before, l = before ++ [(fn, map rarg_val args)].
 Proof.
-  intros. cbn [ev_call].
-  set (g := fun a : rarg => match a with RVal _ => [] | RRe inner0 _ => flat_map (ev_call f) inner0 end).
-  exists (flat_map g pre), (flat_map g post).
-  rewrite flat_map_app. cbn [flat_map]. unfold g at 2.
-  rewrite <- app_assoc. f_equal. rewrite <- app_assoc. reflexivity.
+  intros f fn args l H. cbn [ev_call] in H.
+  destruct (ev_args (ev_call f) args) as [lg ok]. destruct ok; [|discriminate].
+  injection H as <-. eexists. reflexivity.
+Qed.
+
+(* an argument whose conversion fails aborts the call: Go never sees it, the
+   calls made while that argument was converted have still happened *)
+Theorem reentrant_failure_aborts : forall f fn inner post,
+  ev_call (S f) (RCall fn (RReFail inner :: post)) = (fst (ev_seq (ev_call f) inner), false).
+Proof.
+  intros. cbn [ev_call ev_args]. destruct (ev_seq (ev_call f) inner) as [l ok]. reflexivity.
 Qed.
 
 (* a kept result is not changed by later calls of the same function *)
@@ -137,13 +138,16 @@ Theorem callback_throw_surfaces : forall idn ids rt c,
   rt <> RTwo -> cb_call idn ids rt (CbThrow c) = CE c.
 Proof. intros idn ids rt c H. destruct rt; try reflexivity. contradiction. Qed.
 
-(* each(1, function(x){}) with each func(int, ...func(int)): the function is first
-   tried as the whole variadic tail, "converts" to a slice of as many zero values
-   as it declares parameters, and Go receives a nil func where the script passed
-   a function; element-wise conversion (what happens for two functions) gives the function *)
-Theorem variadic_single_function_refuted :
-  call false false 6 [TNum KI; TSlice TFunc] true [JNum (KI64, 1); JFun 1] = CV (GVStruct [GVI KI 1; GVSlice [GVNil]]) /\
-  call true true 6 [TNum KI; TSlice TFunc] true [JNum (KI64, 1); JFun 1] = CV (GVStruct [GVI KI 1; GVSlice [GVFunc]]) /\
+(* a function is never a slice (repaired in 96bc623: it used to become as many
+   zero values as it declares parameters) ... *)
+Theorem function_is_not_a_slice : forall ideal ids f n e,
+  conv ideal ids (S f) (JFun n) (TSlice e) = CE 6.
+Proof. reflexivity. Qed.
+
+(* ... so a single callback for a variadic slot of func type arrives as that
+   function, exactly like two callbacks do *)
+Theorem variadic_single_function :
+  call false false 6 [TNum KI; TSlice TFunc] true [JNum (KI64, 1); JFun 1] = CV (GVStruct [GVI KI 1; GVSlice [GVFunc]]) /\
   call false false 6 [TNum KI; TSlice TFunc] true [JNum (KI64, 1); JFun 1; JFun 1] =
     CV (GVStruct [GVI KI 1; GVSlice [GVFunc; GVFunc]]).
-Proof. vm_compute. repeat split. Qed.
+Proof. vm_compute. split; reflexivity. Qed.
